@@ -8,7 +8,14 @@
      LF <file_len> <hdr> <cap> <ps>    -> some | none
      PA <region> <index> <order> <dso> <rsize> <rstart> <ps> -> <start> <end>
      U <backend_len> <nf> <cap> <hdr> <ps> <trailing|-> <region> <index> <order>
-         -> valid=<b> in=<b> <start> <end> inb=<b>      (inb: page_size <= start /\ end <= backend_len) *)
+         -> valid=<b> in=<b> <start> <end> inb=<b>      (inb: page_size <= start /\ end <= backend_len)
+     H <id> <step>...                  step = events of one API step joined by ',' (or -), event =
+         O<calls>:<ok>:<cok> | r+ | r-<cok> | R<calls> | D<calls> | W<calls> | w+ |
+         w-<commit calls>:<flush calls>:<cok> | d-<commit calls>:<flush calls>:<cok>
+         calls: o/x latching call answered Ok/Err, b/y write_best_effort answered Ok/Err;  +/- Ok/Err
+         -> per step  <closes>;<after>;<stream>   stream = e<o|b><iof><closed> C<iof><closed> D<iof><closed> B<+|-> X<+|->
+            (or INVALID if the history is impossible in the model)
+     HT <id> <step>;<closes>;<after>... -> ok | bad <step> expected=<n> observed=<n> after=<n> | malformed <step>      (timing oracle; decimal counts) *)
 open C20_model
 
 let rec pos_of_bits = function
@@ -63,6 +70,52 @@ let fmt_layout (l : db_layout) =
 
 let n_le a b = N.leb a b
 
+(* ---- shutdown model (H / HT lines) ---- *)
+let rec n_of_int (i : int) : n =
+  if i <= 0 then N0 else
+    let rec pos k = if k = 1 then XH else if k land 1 = 1 then XI (pos (k lsr 1)) else XO (pos (k lsr 1)) in
+    Npos (pos i)
+let int_of_n (x : n) : int =
+  match x with N0 -> 0 | Npos p ->
+    let rec go = function XH -> 1 | XO q -> 2 * go q | XI q -> 2 * go q + 1 in go p
+let parse_calls (s : string) : wcall list =
+  List.init (String.length s) (fun i -> match s.[i] with
+    | 'o' -> (KOp, true) | 'x' -> (KOp, false) | 'b' -> (KBest, true) | 'y' -> (KBest, false)
+    | _ -> failwith ("calls " ^ s))
+let pm_ok (s : string) = match s with "+" -> true | "-" -> false | _ -> failwith ("answer " ^ s)
+let parse_sev (s : string) : sevent =
+  let n = String.length s in
+  if n = 0 then failwith "empty event" else
+  let rest k = String.sub s k (n - k) in
+  match s.[0] with
+  | 'O' -> (match String.split_on_char ':' (rest 1) with
+            | [cs; ok; cok] -> SOpen (parse_calls cs, pm_ok ok, pm_ok cok) | _ -> failwith ("event " ^ s))
+  | 'r' -> if s = "r+" then SBeginRead
+           else if n = 3 && s.[1] = '-' then SEndRead (pm_ok (rest 2)) else failwith ("event " ^ s)
+  | 'R' -> SReadIo (parse_calls (rest 1))
+  | 'D' -> SDbIo (parse_calls (rest 1))
+  | 'W' -> SWriteIo (parse_calls (rest 1))
+  | 'w' -> if s = "w+" then SBeginWrite
+           else if n >= 2 && s.[1] = '-' then
+             (match String.split_on_char ':' (rest 2) with
+              | [c; f; k] -> SEndWrite (parse_calls c, parse_calls f, pm_ok k) | _ -> failwith ("event " ^ s))
+           else failwith ("event " ^ s)
+  | 'd' -> if n >= 2 && s.[1] = '-' then
+             (match String.split_on_char ':' (rest 2) with
+              | [c; f; k] -> SDropDb (parse_calls c, parse_calls f, pm_ok k) | _ -> failwith ("event " ^ s))
+           else failwith ("event " ^ s)
+  | _ -> failwith ("event " ^ s)
+let parse_step_events (s : string) : sevent list =
+  if s = "-" then [] else List.map parse_sev (String.split_on_char ',' s)
+let fmt_tok (t : ltok) : string =
+  let b x = if x then "1" else "0" and pm x = if x then "+" else "-" in
+  match t with
+  | LEnterOp (k, f, c) -> "e" ^ (match k with KOp -> "o" | KBest -> "b") ^ b f ^ b c
+  | LEnterClose (f, c) -> "C" ^ b f ^ b c
+  | LEnterDrop (f, c) -> "D" ^ b f ^ b c
+  | LBack ok -> "B" ^ pm ok
+  | LBackClose ok -> "X" ^ pm ok
+
 let () =
   try
     while true do
@@ -98,6 +151,37 @@ let () =
         let inb = n_le (n_of_hex ps) s && n_le e (n_of_hex blen) in
         Printf.printf "valid=%s in=%s %s %s inb=%s\n" (b01 (valid_layoutb l)) (b01 (in_layoutb l p))
           (hex_of_n s) (hex_of_n e) (b01 inb)
+      | "H" :: _id :: steps ->
+        (try
+          let steps = List.map parse_step_events (List.filter (fun s -> s <> "") steps) in
+          (match model_steps s_new steps with
+           | None -> print_endline "INVALID"
+           | Some (obs, logs) ->
+             let parts = List.map2 (fun (_, (c, a)) l ->
+               let st = String.concat "" (List.map fmt_tok l) in
+               Printf.sprintf "%d;%d;%s" (int_of_n c) (int_of_n a) (if st = "" then "-" else st)) obs logs in
+             print_endline (String.concat " " parts))
+        with Failure m -> print_endline ("BADLINE " ^ m))
+      | "HT" :: _id :: steps ->
+        (try
+          let steps = List.map (fun s -> match String.split_on_char ';' s with
+            | [evs; c; a] -> (parse_step_events evs, (n_of_int (int_of_string c), n_of_int (int_of_string a)))
+            | _ -> failwith ("step " ^ s)) (List.filter (fun s -> s <> "") steps) in
+          (match timing_check t_new steps N0 with
+           | TOk -> print_endline "ok"
+           | TBad i ->
+             (* diagnostics: what the oracle expected after that step *)
+             let k = int_of_n i in
+             let rec upto j t l = match l with
+               | [] -> t
+               | (evs, _) :: r -> if j > k then t else
+                   (match trun t evs with Some t' -> upto (j + 1) t' r | None -> t) in
+             let t = upto 0 t_new steps in
+             let (_, (c, a)) = List.nth steps k in
+             Printf.printf "bad %s expected=%d observed=%d after=%d\n" (hex_of_n i)
+               (int_of_n (expected_closes t)) (int_of_n c) (int_of_n a)
+           | TMalformed i -> Printf.printf "malformed %s\n" (hex_of_n i))
+        with Failure m -> print_endline ("BADLINE " ^ m))
       | _ -> print_endline "BADLINE")
     done
   with End_of_file -> ()
